@@ -74,10 +74,10 @@ TARGETS = [
                (r'list\.push_back\(th\);', 'list_push_back(&list, th);', 1),
                (r'AtomicRunQ\(runq\)\.insert_list_before\(list\);', 'runq_insert_list_before(runq, &list);', 1)],
         marks={'count': 2,
-               0: dict(name='SB', frame=['it_', 'count', 'SQ_N', 'G_IN_HEAP', 'GT', 'OT', 'th'], effects={'list_at': ['OT'], 'sleepq_pop_any': ['SQ_N', 'G_IN_HEAP']}, pure=['list_len'], ptr_targets={'th': ['GT', 'OT']}),
+               0: dict(name='SB', frame=['it_', 'count', 'SQ_N', 'G_IN_HEAP', 'GT', 'OT', 'th'], effects={'list_at': ['OT'], 'sleepq_pop_any': ['SQ_N', 'G_IN_HEAP']}, pure=['list_len', 'sat_add', 'sat_sub'], ptr_targets={'th': ['GT', 'OT']}),
                1: dict(name='EX', frame=['count', 'SQ_N', 'L_LEN', 'G_IN_HEAP', 'G_IN_LIST', 'GT', 'OT', 'G_CLASS', 'FRONT_', 'N_LOCKS', 'th', 'N_DEQ', 'DEQ_STATE'],
                        effects={'sleepq_front': ['OT', 'FRONT_'], 'rs_lock': ['GT', 'OT', 'G_CLASS', 'N_LOCKS'], 'rs_unlock': ['GT', 'OT', 'N_LOCKS'], 'sleepq_pop_front': ['SQ_N', 'G_IN_HEAP', 'FRONT_'],
-                                'ith_dequeue_ready_atomic': ['GT', 'OT', 'N_DEQ', 'DEQ_STATE'], 'list_push_back': ['L_LEN', 'G_IN_LIST']}, pure=['sleepq_empty'], ptr_targets={'th': ['GT', 'OT']})}),
+                                'ith_dequeue_ready_atomic': ['GT', 'OT', 'N_DEQ', 'DEQ_STATE'], 'list_push_back': ['L_LEN', 'G_IN_LIST']}, pure=['sleepq_empty', 'sat_add', 'sat_sub'], ptr_targets={'th': ['GT', 'OT']})}),
     Target('th_min', TH, r'inline uint64_t min\(uint64_t a, uint64_t b\)'),
     Target('idle_wait', TH, r'auto usec = 10 \* 1024 \* 1024; // max', region_end=r'\n\s*\}\s*return nullptr;', rules=[
         (r'auto& sleepq = vcpu->sleepq;', ';', 1), (r'sleepq\.empty\(\)', 'sleepq_empty(vcpu)', 1), (r'sleepq\.front\(\)', 'sleepq_front(vcpu)', 1),
